@@ -214,7 +214,7 @@ def rybicki(prog, ctx, fn, br, sx, st, x):
     k_d1 = [kk for kk in ents if out[kk] is not None and is_zero(out[kk] - ents[kk] - 2)]
     k_d2 = [kk for kk in ents if out[kk] is not None and is_zero(out[kk] - ents[kk] + 2)]
     k_e1 = [kk for kk in ents if out[kk] is not None and kk not in k_d1 + k_d2 and not sp.cancel(out[kk] / ents[kk]).has(ents[kk])
-            and sp.cancel(out[kk] / ents[kk]) != 1 and not str(ents[kk]).startswith('i@')]
+            and sp.cancel(out[kk] / ents[kk]) != 1 and kk != sx.counter_key(loops[1], cur)]
     probs = []
     if not okc:
         probs.append('coefficient table is not exp(-((2i+1)H)^2)')
@@ -237,9 +237,9 @@ def rybicki(prog, ctx, fn, br, sx, st, x):
             except Exception as e:
                 probs.append('%s not comparable: %s' % (nm, got[nm]))
         # summand
-        ks = [kk for kk in ents if kk not in (k_d1[0], k_d2[0], k_e1[0]) and out[kk] is not None and not str(ents[kk]).startswith('i@')]
+        ks = [kk for kk in ents if kk not in (k_d1[0], k_d2[0], k_e1[0]) and out[kk] is not None and kk != sx.counter_key(loops[1], cur)]
         okterm = False
-        iv = [v for v in ents.values() if str(v).startswith('i@')]
+        iv = [v for kk_, v in ents.items() if kk_ == sx.counter_key(loops[1], cur)]
         for kk in ks:
             delta = out[kk] - ents[kk]
             q = sp.simplify(delta / (e1 / d1 + 1 / (d2 * e1)))
